@@ -1,4 +1,5 @@
 import Srtla.Lemmas.ReloadBasic
+import Srtla.Lemmas.ReloadExact
 import Srtla.Lemmas.ForwardStep
 import Srtla.Lemmas.RunLevelRelay
 import Srtla.Lemmas.TrackerTie
@@ -12,10 +13,21 @@ per needed address whose `connect_uplink` attempt succeeded (`outs`: the drawn c
 event).  Statements here (scalar-generic, core Lean only):
 
 * frame / exact removal / exact addition: `reload_frame`, `reload_removed`, `reload_added`, `reload_untouched`;
+* the EXACT link list (both directions, `Lemmas/ReloadExact.lean`): `neededAddrs_exact` (membership `↔`, each
+  once, first-occurrence order, and these facts determine the list — a wrong `dedupSeen` breaks it),
+  `reload_exact` (post-state = retained filter ++ closed form of the created links), `mem_reload_iff`,
+  `reload_adds` (every desired address no link carried is attempted exactly once; attempt `k` pairs
+  `neededAddrs[k]` with `outs[k]`; a success yields exactly `newUplink id a now`, a failure nothing);
 * C11 `C11_anchor_forgotten_iff_removed`; C05 `C05_reload_forgets_removed`, `C05_tracker_names_only_links_run`;
 * invariants over runs WITH reloads: `Inv_step_reload`, `Inv_run_reload` (distinct ids, queues < 32; hypothesis:
-  the drawn ids are new), `LinkInv_run_reload`, `IoOk_step` / `IoOk_run` (the I/O map follows);
-* C01 `C01_reload_accounting` (the new discard cause), C04 `C04_reload_no_new_eligible`, C09 `C09_relay_run_reload`.
+  the drawn ids are new), `LinkInv_run_reload`, `IoOk_step_reload`, `IoOk_step` (every event), `IoOk_run` (the I/O
+  map follows);
+* C01 `C01_reload_accounting` (the new discard cause), C04 `C04_reload_no_new_eligible`, C09 `C09_relay_run_reload`,
+  `C09_removed_id_dropped`.
+
+Non-vacuity: the `decide`-checked examples use ONE concrete state `exS` (two links MODIFIED away from the
+constructor: live, a datagram queued, a packet in flight and logged, a non-default window; one fresh link) and ONE
+reload `exReload` that removes AND adds in the same event (a duplicate desired address, a failed attempt).
 -/
 namespace Srtla.Props.SysReload
 open Srtla Srtla.Gen Srtla.Conn Srtla.Link Srtla.Sys
@@ -24,6 +36,70 @@ variable {F : Type} [Scalar F]
 
 /-- The scalar instance of the `decide`-checked examples (fixed-point integers; nothing here computes a float). -/
 local instance : Scalar Int := Select.fixScalar
+
+/-! ## 0. The concrete state of the non-vacuity examples -/
+
+/-- An SRT data packet (sequence number 41), 16 bytes. -/
+def exData : Sys.Bytes := [0, 0, 0, 41, 0, 0, 0, 0, 0, 0, 0, 0, 1, 2, 3, 4]
+
+/-- A `newUplink` record MODIFIED: live and connected, one datagram queued, one packet in flight and logged, a
+non-default window, a receive stamp. -/
+def exBusy (id addr : Nat) : FLink Int :=
+  let l : FLink Int := FLink.newUplink id addr 0
+  { l with core := { l.core with connected := true, phase := .live, window := 25000, inFlight := 1,
+                                  log := [(40, 4900)], lastReceived := some 4000 },
+           queue := [(exData, some 41, 4950)] }
+
+/-- Links `1@1` and `2@2` busy, `3@3` fresh and registering; client known; every link has its I/O half; the
+selector's anchor names link 2 (index 1); the tracker attributes sequence number 41 to link 2. -/
+def exS : Sys Int :=
+  { links := [exBusy 1 1, exBusy 2 2, FLink.newUplink 3 3 0], reg := Reg.Reg.new [] [], clientKnown := true,
+    io := [1, 2, 3], lastSelected := some 1, trk := Tracker.empty.insert 41 2 4950 }
+
+/-- The example reload at clock 9: address 2 is no longer desired (link 2 is REMOVED with its queued datagram);
+addresses 4 (listed twice), 5 and 6 are new: needed = `[4, 5, 6]`, the attempt for 5 fails, 4 and 6 draw the conn
+ids 7 and 8 (links ADDED in the same event). -/
+def exReload : Ev := .reload 9 [3, 1, 4, 4, 5, 6] [some 7, none, some 8]
+
+/-- The example run: the reload `exReload`; a datagram for the removed conn id 2; one for the retained link 1; a
+client datagram; a SECOND reload that re-adds address 2 (new conn id 9) and removes addresses 4 and 6; a
+housekeeping tick. -/
+def exRun : List Ev :=
+  [exReload, .uplink 10 2 exData, .uplink 11 1 exData, .client 12 exData, .reload 20 [1, 2, 3] [some 9], .hk 21]
+
+/-- What the examples read off a link. -/
+def exView (l : FLink Int) : (Nat × Nat × Nat × Nat) × (Int × Bool × Bool) :=
+  ((l.core.connId, l.addr, l.queue.length, l.core.log.length), (l.core.window, l.core.connected, l.schedulable))
+
+theorem exS_inv : Inv exS := ⟨by decide, by decide⟩
+
+theorem exBusy_linkInv (id addr : Nat) : SysInv.LinkInv (exBusy id addr) := by
+  refine ⟨⟨?_, ?_, ?_⟩, ?_, ?_, ?_, ?_⟩
+  · show ([40] : List Int).Nodup
+    decide
+  · show ∀ s ∈ ([40] : List Int), Conn.I32_MIN < s
+    decide
+  · show (1 : Int) = (([40] : List Int).length : Int)
+    decide
+  · show (1000 : Int) ≤ 25000
+    decide
+  · show (25000 : Int) ≤ 60000
+    decide
+  · show (0 : Int) ≤ 1
+    decide
+  intro it hit n hn
+  have : it = (exData, some 41, 4950) := by simpa [exBusy] using hit
+  subst this
+  cases hn
+  decide
+
+theorem exS_linkInv : SysInv.All SysInv.LinkInv exS.links := by
+  intro l hl
+  have : l = exBusy 1 1 ∨ l = exBusy 2 2 ∨ l = FLink.newUplink 3 3 0 := by simpa [exS] using hl
+  rcases this with rfl | rfl | rfl
+  · exact exBusy_linkInv 1 1
+  · exact exBusy_linkInv 2 2
+  · exact SysInv.linkInv_newUplink 3 3 0
 
 /-! ## 1. Frame, exact removal, exact addition -/
 
@@ -45,6 +121,20 @@ example :
     ((step ({ links := [FLink.newUplink 1 1 0, FLink.newUplink 2 2 0, FLink.newUplink 3 3 0],
               reg := Reg.Reg.new [] [] } : Sys Int) (.reload 9 [3, 1, 4] [some 7])).1.links.map
         fun l => (l.core.connId, l.addr)) = [(1, 1), (3, 3), (7, 4)] := by decide
+
+-- non-vacuity, removal AND addition in one event with a NON-PRISTINE retained record: link 1 keeps its queued
+-- datagram, its logged packet, its window 25000, its flags; link 2 is gone; 3 stays; 7@4 and 8@6 are appended with
+-- the constructor's values (address 4 attempted once although listed twice, the failed attempt for 5 adds nothing)
+example :
+    exS.links.map exView =
+      [((1, 1, 1, 1), (25000, true, true)), ((2, 2, 1, 1), (25000, true, true)), ((3, 3, 0, 0), (20000, false, false))] ∧
+    (step exS exReload).1.links.map exView =
+      [((1, 1, 1, 1), (25000, true, true)), ((3, 3, 0, 0), (20000, false, false)),
+       ((7, 4, 0, 0), (20000, false, false)), ((8, 6, 0, 0), (20000, false, false))] ∧
+    (step exS exReload).1.links[0]?.map (·.queue) = some [(exData, some 41, 4950)] ∧
+    (step exS exReload).1.links[0]?.map (·.core.log) = some [(40, 4900)] ∧
+    neededAddrs exS.links [3, 1, 4, 4, 5, 6] = [4, 5, 6] := by
+  refine ⟨?_, ?_, ?_, ?_, ?_⟩ <;> decide
 
 omit [Scalar F] in
 /-- With distinct conn ids a link is determined by its conn id. -/
@@ -81,29 +171,105 @@ theorem reload_removed (s : Sys F) (now : Nat) (addrs : List Nat) (outs : List (
       rw [this] at heq
       rw [heq]; exact List.mem_map.2 ⟨l, hl, rfl⟩)
 
-/-- `new_ips_needed`: exactly the desired addresses that no link carried BEFORE the call, each once. -/
+-- non-vacuity of `reload_removed`: its hypotheses hold of `exS` / `exReload` (distinct ids, the drawn ids 7 and 8
+-- are new), link 2 is a link of the pre-state whose address is not desired, and no link of the post-state carries
+-- conn id 2
+example :
+    (ids exS.links).Nodup ∧ (∀ i ∈ [7, 8], i ∉ ids exS.links) ∧
+    exS.links[1]?.map (fun l => (l.core.connId, l.addr)) = some (2, 2) ∧ [3, 1, 4, 4, 5, 6].contains 2 = false ∧
+    ids (step exS exReload).1.links = [1, 3, 7, 8] := by decide
+
+omit [Scalar F] in
+/-- **`new_ips_needed`, exactly**: its members are EXACTLY (`↔`) the desired addresses that no link carried BEFORE
+the call; each occurs once; it is a sublist of the desired list, in the order of the FIRST occurrences (the
+positions `addrs.idxOf a` increase strictly); and these facts determine the list: any list with these members in
+this order IS `neededAddrs`.  (With `dedupSeen := fun _ _ => []` the `↔` fails, with the identity `Nodup` fails,
+with last occurrences the order fails: `Lemmas/ReloadExact.lean`.) -/
+theorem neededAddrs_exact (ls : List (FLink F)) (addrs : List Nat) :
+    (∀ a, a ∈ neededAddrs ls addrs ↔ a ∈ addrs ∧ ∀ l ∈ ls, l.addr ≠ a) ∧
+    (neededAddrs ls addrs).Nodup ∧ (neededAddrs ls addrs).Sublist addrs ∧
+    ((neededAddrs ls addrs).map fun a => addrs.idxOf a).Pairwise (· < ·) ∧
+    ∀ r : List Nat, (∀ a, a ∈ r ↔ a ∈ addrs ∧ ∀ l ∈ ls, l.addr ≠ a) →
+      (r.map fun a => addrs.idxOf a).Pairwise (· < ·) → r = neededAddrs ls addrs :=
+  ⟨mem_neededAddrs_iff ls addrs, neededAddrs_nodup ls addrs, neededAddrs_sublist ls addrs,
+   neededAddrs_firstOcc ls addrs, neededAddrs_unique ls addrs⟩
+
+omit [Scalar F] in
+/-- The soundness half of `neededAddrs_exact` (kept under its old name). -/
 theorem mem_neededAddrs (ls : List (FLink F)) (addrs : List Nat) (a : Nat) :
-    a ∈ neededAddrs ls addrs → a ∈ addrs ∧ ∀ l ∈ ls, l.addr ≠ a := by
-  intro h
-  unfold neededAddrs at h
-  obtain ⟨h1, h2⟩ := List.mem_filter.1 h
-  have hd : ∀ (seen xs : List Nat), a ∈ dedupSeen seen xs → a ∈ xs := by
-    intro seen xs
-    induction xs generalizing seen with
-    | nil => intro h; simp [dedupSeen] at h
-    | cons x xs ih =>
-      intro h
-      unfold dedupSeen at h
-      split at h
-      · exact List.mem_cons_of_mem _ (ih _ h)
-      · rcases List.mem_cons.1 h with rfl | h
-        · exact List.mem_cons_self
-        · exact List.mem_cons_of_mem _ (ih _ h)
-  refine ⟨hd _ _ h1, fun l hl hla => ?_⟩
-  have : (ls.map (·.addr)).contains a = true := by
-    rw [List.contains_eq_mem, decide_eq_true_iff]
-    exact List.mem_map.2 ⟨l, hl, hla⟩
-  rw [this] at h2; cases h2
+    a ∈ neededAddrs ls addrs → a ∈ addrs ∧ ∀ l ∈ ls, l.addr ≠ a :=
+  (mem_neededAddrs_iff ls addrs a).1
+
+-- non-vacuity: duplicates, carried addresses, order of first occurrences (5 is first seen before 4)
+example :
+    neededAddrs ([FLink.newUplink 1 1 0, FLink.newUplink 2 2 0] : List (FLink Int)) [5, 2, 4, 5, 1, 4, 6, 5] = [5, 4, 6] ∧
+    neededAddrs ([] : List (FLink Int)) [2, 2, 1, 2] = [2, 1] ∧
+    neededAddrs ([FLink.newUplink 1 1 0] : List (FLink Int)) [1, 1] = [] := by decide
+
+/-- **The link list after a reload, exactly**: the links whose address is still desired — the `filter`, so every
+one of them with its whole record, its multiplicity and in the old order — followed by the created links in
+closed form: attempt `k` pairs the `k`-th needed address with outcome `k`; a success `some id` yields exactly
+`newUplink id addr now`, a failure or a missing outcome yields nothing. -/
+theorem reload_exact (s : Sys F) (now : Nat) (addrs : List Nat) (outs : List (Option Nat)) :
+    (step s (.reload now addrs outs)).1.links =
+      s.links.filter (fun l => addrs.contains l.addr) ++
+      ((neededAddrs s.links addrs).zip outs).filterMap fun p =>
+        p.2.map fun id => (FLink.newUplink id p.1 now : FLink F) := by
+  rw [reload_links, createConnections_eq]; rfl
+
+/-- **Membership through a reload, both directions**, the created links by attempt number. -/
+theorem mem_reload_iff (s : Sys F) (now : Nat) (addrs : List Nat) (outs : List (Option Nat)) (l : FLink F) :
+    l ∈ (step s (.reload now addrs outs)).1.links ↔
+      (l ∈ s.links ∧ addrs.contains l.addr = true) ∨
+      ∃ (k a id : Nat), (neededAddrs s.links addrs)[k]? = some a ∧ outs[k]? = some (some id) ∧
+        l = FLink.newUplink id a now := by
+  rw [reload_links, List.mem_append, mem_retained, mem_createConnections_iff]
+
+/-- **Exact addition, the completeness half**: a desired address `a` that no link carried is attempted EXACTLY
+ONCE — it sits at exactly one position `k` of `neededAddrs` —, the attempt's outcome is `outs[k]`, and
+* if it is the success `some id`, the post-state has the link `newUplink id a now`, and that is the ONLY link of
+  the post-state with address `a`;
+* if it is a failure (or there is no outcome), no link of the post-state has address `a`. -/
+theorem reload_adds (s : Sys F) (now : Nat) (addrs : List Nat) (outs : List (Option Nat)) (a : Nat)
+    (ha : a ∈ addrs) (hn : ∀ l ∈ s.links, l.addr ≠ a) :
+    ∃ k : Nat, (neededAddrs s.links addrs)[k]? = some a ∧
+      (∀ k' : Nat, (neededAddrs s.links addrs)[k']? = some a → k' = k) ∧
+      (∀ id, outs[k]? = some (some id) →
+        (FLink.newUplink id a now : FLink F) ∈ (step s (.reload now addrs outs)).1.links ∧
+        ∀ l ∈ (step s (.reload now addrs outs)).1.links, l.addr = a → l = FLink.newUplink id a now) ∧
+      (outs[k]?.join = none → ∀ l ∈ (step s (.reload now addrs outs)).1.links, l.addr ≠ a) := by
+  obtain ⟨k, hk⟩ := List.getElem?_of_mem ((mem_neededAddrs_iff s.links addrs a).2 ⟨ha, hn⟩)
+  have huniq : ∀ k', (neededAddrs s.links addrs)[k']? = some a → k' = k := by
+    intro k' hk'
+    have hlt := (List.getElem?_eq_some_iff.1 hk').1
+    exact (List.getElem?_inj hlt (neededAddrs_nodup s.links addrs)).1 (hk'.trans hk.symm)
+  -- a link of the post-state with address `a` was created by attempt `k`
+  have hof : ∀ l ∈ (step s (.reload now addrs outs)).1.links, l.addr = a →
+      ∃ id, outs[k]? = some (some id) ∧ l = FLink.newUplink id a now := by
+    intro l hl hla
+    rcases (mem_reload_iff s now addrs outs l).1 hl with ⟨h1, -⟩ | ⟨k', a', id, h1, h2, rfl⟩
+    · exact absurd hla (hn l h1)
+    · have : a' = a := hla
+      subst this
+      rw [huniq k' h1] at h2
+      exact ⟨id, h2, rfl⟩
+  refine ⟨k, hk, huniq, fun id hid => ⟨?_, fun l hl hla => ?_⟩, fun hnone l hl hla => ?_⟩
+  · exact (mem_reload_iff s now addrs outs _).2 (.inr ⟨k, a, id, hk, hid, rfl⟩)
+  · obtain ⟨id', h1, rfl⟩ := hof l hl hla
+    rw [hid] at h1
+    cases h1; rfl
+  · obtain ⟨id', h1, -⟩ := hof l hl hla
+    rw [h1] at hnone
+    cases hnone
+
+-- non-vacuity of `reload_adds` / `reload_exact` on `exS` / `exReload`: address 4 (desired twice, not carried) sits
+-- at position 0 of the needed list only, its outcome is `some 7`, the post-state has exactly one link with address 4
+-- and it is `7@4`; address 5 sits at position 1, its outcome is a failure, no link of the post-state has address 5
+example :
+    (neededAddrs exS.links [3, 1, 4, 4, 5, 6]).idxOf 4 = 0 ∧ (neededAddrs exS.links [3, 1, 4, 4, 5, 6]).count 4 = 1 ∧
+    ((step exS exReload).1.links.filter (·.addr == 4)).map exView = [((7, 4, 0, 0), (20000, false, false))] ∧
+    (neededAddrs exS.links [3, 1, 4, 4, 5, 6])[1]? = some 5 ∧
+    ((step exS exReload).1.links.filter (·.addr == 5)).length = 0 := by decide
 
 /-- **Exact addition.**  Every link of the post-state that is not a link of the pre-state is a freshly constructed
 registering record — the constructor of start-up, at the reload's clock — for a desired address that no link
@@ -118,6 +284,19 @@ theorem reload_added (s : Sys F) (now : Nat) (addrs : List Nat) (outs : List (Op
   · obtain ⟨h1, h2⟩ := mem_neededAddrs _ _ _ ha
     exact ⟨id, a, hid, h1, h2, rfl, rfl, rfl, rfl, rfl, rfl, rfl⟩
 
+-- non-vacuity of `reload_added`: links 7@4 and 8@6 of the post-state carry ids / addresses no link of the pre-state
+-- carries, and they are the constructor's record at the reload's clock 9: registering, not connected, empty queue
+-- and log, nothing in flight, grace window until 9 + STARTUP_GRACE_MS
+example :
+    ((step exS exReload).1.links.drop 2).map
+        (fun l => (l.core.connId, l.addr, l.core.connected, l.core.phase)) =
+      [(7, 4, false, .registering), (8, 6, false, .registering)] ∧
+    ((step exS exReload).1.links.drop 2).map
+        (fun l => (l.queue.isEmpty, l.core.log.isEmpty, l.core.inFlight, l.graceDeadline == 9 + Conn.STARTUP_GRACE_MS)) =
+      [(true, true, 0, true), (true, true, 0, true)] ∧
+    (∀ l ∈ exS.links, l.core.connId ≠ 7 ∧ l.core.connId ≠ 8 ∧ l.addr ≠ 4 ∧ l.addr ≠ 6) := by
+  refine ⟨?_, ?_, ?_⟩ <;> decide
+
 /-- **What a reload does not touch**: the registration manager (its index-keyed state is NOT remapped — the
 documented observation of C19 / C07 is reproduced, not repaired), the configuration, the client address, the
 critical window, `all_failed_at`, the injection lists; and it emits nothing. -/
@@ -128,6 +307,15 @@ theorem reload_untouched (s : Sys F) (now : Nat) (addrs : List Nat) (outs : List
     (step s (.reload now addrs outs)).2.wire = [] ∧ (step s (.reload now addrs outs)).2.client = [] ∧
     (step s (.reload now addrs outs)).2.hkErr = false :=
   ⟨rfl, rfl, rfl, rfl, rfl, rfl, rfl, rfl, rfl, rfl⟩
+
+-- non-vacuity of `reload_untouched` on a state whose fields are not the defaults: the client stays known, the
+-- registration manager, configuration and injection lists are the same terms, nothing is emitted; the selector's
+-- anchor (it named the removed link 2) is forgotten (`C11_anchor_forgotten_iff_removed`)
+example :
+    exS.clientKnown = true ∧ (step exS exReload).1.clientKnown = true ∧ (step exS exReload).1.reg = exS.reg ∧
+    (step exS exReload).1.cfg = exS.cfg ∧ (step exS exReload).2.wire = [] ∧ (step exS exReload).2.client = [] ∧
+    exS.lastSelected = some 1 ∧ (step exS exReload).1.lastSelected = none :=
+  ⟨rfl, rfl, rfl, rfl, rfl, rfl, rfl, by decide⟩
 
 /-! ## 2. C11: the hysteresis anchor -/
 
@@ -217,6 +405,14 @@ example :
       (step s (.reload 9 [1] [])).1.trk.get 6 100 = some 1 := by
   decide
 
+-- on `exS` / `exRun`: sequence number 41 is attributed to link 2; the reload removes link 2 and the attribution with
+-- it; the client datagram of the run (the same number) is routed to link 1, and at the end of the run — two reloads —
+-- the tracker names link 1, a link that is present
+example :
+    exS.trk.get 41 5000 = some 2 ∧ (step exS exReload).1.trk.get 41 5000 = none ∧
+    (KaTrace.runEvs exS exRun).trk.get 41 5000 = some 1 ∧ ids (KaTrace.runEvs exS exRun).links = [1, 3, 9] :=
+  ⟨by decide +kernel, by decide +kernel, by decide +kernel, by decide +kernel⟩
+
 /-! ## 4. Invariants over runs with reloads -/
 
 /-- What `rand::rng().next_u64()` is trusted to deliver at one reload: ids that no present link carries and that
@@ -230,6 +426,36 @@ def FreshRun : Sys F → List Ev → Prop
   | _, [] => True
   | s, e :: es =>
     (∀ now addrs outs, e = .reload now addrs outs → FreshOuts s.links outs) ∧ FreshRun (step s e).1 es
+
+omit [Scalar F] in
+/-- `FreshOuts` over the drawn ids (`outs.filterMap id`): a decidable form. -/
+theorem freshOuts_iff (ls : List (FLink F)) (outs : List (Option Nat)) :
+    FreshOuts ls outs ↔ (outs.filterMap id).Nodup ∧ ∀ i ∈ outs.filterMap id, i ∉ ids ls := by
+  unfold FreshOuts
+  refine and_congr_right fun _ => ⟨fun h i hi => h i ?_, fun h i hi => h i ?_⟩
+  · obtain ⟨o, ho, e⟩ := List.mem_filterMap.1 hi
+    have : o = some i := e
+    rw [← this]; exact ho
+  · exact List.mem_filterMap.2 ⟨some i, hi, rfl⟩
+
+omit [Scalar F] in
+instance decFreshOuts (ls : List (FLink F)) (outs : List (Option Nat)) : Decidable (FreshOuts ls outs) :=
+  decidable_of_iff _ (freshOuts_iff ls outs).symm
+
+omit [Scalar F] in
+/-- The freshness condition `FreshRun` asks of ONE event is decidable. -/
+instance decFreshHead (s : Sys F) (e : Ev) :
+    Decidable (∀ now addrs outs, e = .reload now addrs outs → FreshOuts s.links outs) :=
+  match e with
+  | .reload _ _ outs =>
+    decidable_of_iff (FreshOuts s.links outs) ⟨fun h _ _ _ he => by cases he; exact h, fun h => h _ _ _ rfl⟩
+  | .client _ _ | .uplink _ _ _ | .flush _ | .hk _ | .setCfg _ | .crit _ | .failNext _ | .failBind _
+  | .stamp _ _ _ _ _ | .syncTimeout => isTrue (fun _ _ _ he => nomatch he)
+
+/-- `FreshRun` of a concrete run from a concrete state is decidable (used by the examples). -/
+instance decFreshRun : (s : Sys F) → (evs : List Ev) → Decidable (FreshRun s evs)
+  | _, [] => isTrue trivial
+  | s, e :: es => @instDecidableAnd _ _ (decFreshHead s e) (decFreshRun (step s e).1 es)
 
 theorem freshRun_of_noReload (s : Sys F) (evs : List Ev) (h : NoReload evs) : FreshRun s evs := by
   induction evs generalizing s with
@@ -285,17 +511,29 @@ theorem Inv_step_reload (s : Sys F) (h : Inv s) (now : Nat) (addrs : List Nat) (
       exact hf.2 i ho (h1.subset ha)
   · exact reload_all now addrs outs h.hold (fun _ _ => by show (0 : Nat) < 32; omega)
 
+/-- **`Inv` survives EVERY event**, a reload under the freshness hypothesis of that one event. -/
+theorem Inv_step_fresh (s : Sys F) (h : Inv s) (e : Ev)
+    (hf : ∀ now addrs outs, e = .reload now addrs outs → FreshOuts s.links outs) : Inv (step s e).1 := by
+  cases hnr : e.isReload with
+  | false => exact h.step e hnr
+  | true =>
+    cases e with
+    | reload now addrs outs => exact Inv_step_reload s h now addrs outs (hf now addrs outs rfl)
+    | _ => cases hnr
+
 theorem Inv_run_reload (s : Sys F) (h : Inv s) (evs : List Ev) (hf : FreshRun s evs) : Inv (run s evs).1 := by
   induction evs generalizing s with
   | nil => exact h
-  | cons e es ih =>
-    refine ih (step s e).1 ?_ hf.2
-    cases hnr : e.isReload with
-    | false => exact h.step e hnr
-    | true =>
-      cases e with
-      | reload now addrs outs => exact Inv_step_reload s h now addrs outs (hf.1 now addrs outs rfl)
-      | _ => cases hnr
+  | cons e es ih => exact ih (step s e).1 (Inv_step_fresh s h e hf.1) hf.2
+
+-- non-vacuity of `Inv_step_reload` / `Inv_run_reload`: `exS` satisfies `Inv`, BOTH reloads of `exRun` satisfy the
+-- freshness hypothesis in the state the run has reached (`FreshRun`, decided), the run is not reload-free, and the
+-- final conn ids are distinct; a run that re-draws a present id violates `FreshRun`
+example :
+    Inv exS ∧ FreshOuts exS.links [some 7, none, some 8] ∧ FreshRun exS exRun ∧ ¬ NoReload exRun ∧
+    ids (run exS exRun).1.links = [1, 3, 9] ∧
+    ¬ FreshRun exS [exReload, .reload 20 [1, 2, 3] [some 7]] ∧ ¬ FreshOuts exS.links [some 7, some 7] :=
+  ⟨exS_inv, by decide, by decide +kernel, by decide, by decide +kernel, by decide +kernel, by decide⟩
 
 /-- The accounting invariant of every link (`LinkInv`: log / in-flight / window range / queue) along ANY run,
 reloads included (`SysInv.step_all` covers the new event through `Closed.fresh`). -/
@@ -305,6 +543,15 @@ theorem LinkInv_run_reload (s : Sys F) (evs : List Ev) (h : SysInv.All SysInv.Li
   | nil => exact h
   | cons e es ih =>
     exact ih _ (SysInv.step_all s e (fun arm _ => SysInv.linkInv_closed _ arm _) h)
+
+-- non-vacuity of `LinkInv_run_reload`: the hypothesis holds of `exS` (two links with a logged in-flight packet, a
+-- queued tracked datagram and a non-default window: `exS_linkInv`), the run contains two reloads, and at its end link 1
+-- still carries its accounting (window 25000, its logged packet) next to the fresh links
+example :
+    SysInv.All SysInv.LinkInv exS.links ∧ ¬ NoReload exRun ∧
+    (run exS exRun).1.links.map (fun l => (l.core.connId, l.addr, l.core.window, l.core.log.length)) =
+      [(1, 1, 25000, 1), (3, 3, 20000, 0), (9, 2, 20000, 0)] :=
+  ⟨exS_linkInv, by decide, by decide +kernel⟩
 
 /-! ### The I/O map follows -/
 
@@ -399,35 +646,139 @@ example :
     (step ({ links := [FLink.newUplink 1 1 0, FLink.newUplink 2 2 0], reg := Reg.Reg.new [] [], io := [2, 1] } : Sys Int)
       (.reload 9 [1, 4] [some 7])).1.io = [1, 7] := by decide
 
+/-- **The I/O map follows EVERY event.**  No event but `reload` touches the key set (`Sys.step_io`: the arms of
+the loop look halves up; `reconnect_uplink` replaces a half under its existing key) or the conn ids
+(`step_ids`); the reload case is `IoOk_step_reload`. -/
+theorem IoOk_step (s : Sys F) (hnd : (ids s.links).Nodup) (h : IoOk s) (e : Ev) : IoOk (step s e).1 := by
+  cases hnr : e.isReload with
+  | false =>
+    intro k
+    rw [step_io s e hnr, step_ids s e hnd hnr]
+    exact h k
+  | true =>
+    cases e with
+    | reload now addrs outs => exact IoOk_step_reload s hnd h now addrs outs
+    | _ => cases hnr
+
+/-- **Along every run whose reloads draw new conn ids, every link has its I/O half and no half is left behind**:
+what the modelling decision of `hkLinksGo` (no arm for "link without an I/O entry") and the lookups of the other
+arms rest on.  `Inv` (distinct ids) is carried along the run by `Inv_step_fresh`. -/
+theorem IoOk_run (s : Sys F) (hinv : Inv s) (h : IoOk s) (evs : List Ev) (hf : FreshRun s evs) :
+    IoOk (run s evs).1 := by
+  induction evs generalizing s with
+  | nil => exact h
+  | cons e es ih => exact ih (step s e).1 (Inv_step_fresh s hinv e hf.1) (IoOk_step s hinv.nodup h e) hf.2
+
+theorem exS_ioOk : IoOk exS := fun k => by rw [show exS.io = ids exS.links by decide]
+
+-- non-vacuity of `IoOk_step` / `IoOk_run`: `exS` has one half per link; after the example run (two reloads, uplink,
+-- client and housekeeping events in between) the key set is again exactly the conn ids
+example :
+    IoOk exS ∧ Inv exS ∧ FreshRun exS exRun ∧ (step exS exReload).1.io = [1, 3, 7, 8] ∧
+    (run exS exRun).1.io = [1, 3, 9] ∧ ids (run exS exRun).1.links = [1, 3, 9] :=
+  ⟨exS_ioOk, exS_inv, by decide +kernel, by decide, by decide +kernel, by decide +kernel⟩
+
 /-! ## 5. C01: the new discard cause; C04: no new eligible link; C09: the relay log -/
 
-/-- **C01 accounting at a reload.**  Nothing goes on any wire and nothing reaches the client.  Every link of the
-pre-state either is a link of the post-state with its whole record — so every datagram it holds is still queued
-on it, in order —, or its address is no longer desired: it is removed and the up to 31 datagrams queued on it are
-discarded WITH it (the discard cause of this event: `addrs.contains l.addr = false`).  Every other link of the
-post-state is new and holds nothing. -/
+/-- Every link of the post-state carries a desired address. -/
+theorem reload_addr_desired (s : Sys F) (now : Nat) (addrs : List Nat) (outs : List (Option Nat)) :
+    ∀ l' ∈ (step s (.reload now addrs outs)).1.links, addrs.contains l'.addr = true := by
+  intro l' hl'
+  rcases mem_reload hl' with ⟨-, h2⟩ | ⟨id, a, ha, -, rfl⟩
+  · exact h2
+  · have : a ∈ addrs := ((mem_neededAddrs_iff s.links addrs a).1 ha).1
+    show addrs.contains a = true
+    simpa using this
+
+/-- **C01 accounting at a reload.**  Nothing goes on any wire and nothing reaches the client.  Every link `l` of
+the pre-state EITHER carries a desired address and is a link of the post-state with its whole record — so every
+datagram it holds is still queued on it, in order —, OR its address is no longer desired and it is REMOVED: `l` is
+not a link of the post-state, no link of the post-state carries its address, and — with distinct conn ids and newly
+drawn ids (`reload_removed`) — none carries its conn id: the up to 31 datagrams queued on it are discarded WITH it
+(the discard cause of this event: `addrs.contains l.addr = false`).  Every other link of the post-state is new and
+holds nothing.  Last conjunct, the multiplicity form: the post-state's list is EXACTLY the `filter` of the old list
+by "address desired" (each retained record as often as before, in the old order) followed by new records that hold
+nothing, have nothing logged or in flight, and carry addresses no old link carried.
+
+Scope.  This is the accounting of ONE event.  C01's exactly-once run theorems mirror the queues by link INDEX and
+are proved per stretch of a run between two reloads; the ghost tags of the stretch before a reload are NOT related
+here to the tags of the stretch after it (that a retained link's queued datagrams keep their tags across the
+event follows from "whole record", but the single ghost run across a reload is not stated in this file). -/
 theorem C01_reload_accounting (s : Sys F) (now : Nat) (addrs : List Nat) (outs : List (Option Nat)) :
     (step s (.reload now addrs outs)).2.wire = [] ∧ (step s (.reload now addrs outs)).2.client = [] ∧
-    (∀ l ∈ s.links, l ∈ (step s (.reload now addrs outs)).1.links ∨ addrs.contains l.addr = false) ∧
-    (∀ l' ∈ (step s (.reload now addrs outs)).1.links, l' ∈ s.links ∨ l'.queue = []) := by
-  refine ⟨rfl, rfl, fun l hl => ?_, fun l' hl' => ?_⟩
+    (∀ l ∈ s.links,
+      (addrs.contains l.addr = true ∧ l ∈ (step s (.reload now addrs outs)).1.links) ∨
+      (addrs.contains l.addr = false ∧ l ∉ (step s (.reload now addrs outs)).1.links ∧
+        (∀ l' ∈ (step s (.reload now addrs outs)).1.links, l'.addr ≠ l.addr) ∧
+        ((ids s.links).Nodup → (∀ id, some id ∈ outs → id ∉ ids s.links) →
+          ∀ l' ∈ (step s (.reload now addrs outs)).1.links, l'.core.connId ≠ l.core.connId))) ∧
+    (∀ l' ∈ (step s (.reload now addrs outs)).1.links, l' ∈ s.links ∨ l'.queue = []) ∧
+    (∃ created : List (FLink F),
+      (step s (.reload now addrs outs)).1.links = s.links.filter (fun l => addrs.contains l.addr) ++ created ∧
+      ∀ l' ∈ created, l'.queue = [] ∧ l'.core.log = [] ∧ l'.core.inFlight = 0 ∧ ∀ l ∈ s.links, l'.addr ≠ l.addr) := by
+  have hdes := reload_addr_desired s now addrs outs
+  refine ⟨rfl, rfl, fun l hl => ?_, fun l' hl' => ?_, ?_⟩
   · cases hc : addrs.contains l.addr with
-    | true => exact .inl ((reload_frame s now addrs outs).1 l hl hc)
-    | false => exact .inr rfl
+    | true => exact .inl ⟨rfl, (reload_frame s now addrs outs).1 l hl hc⟩
+    | false =>
+      refine .inr ⟨rfl, fun hin => ?_, fun l' hl' he => ?_, fun hnd hfresh => ?_⟩
+      · rw [hdes l hin] at hc; cases hc
+      · rw [← he, hdes l' hl'] at hc; cases hc
+      · exact reload_removed s now addrs outs hnd hfresh l hl hc
   · rcases mem_reload hl' with ⟨h1, -⟩ | ⟨id, a, -, -, rfl⟩
     · exact .inl h1
     · exact .inr rfl
+  · refine ⟨createConnections now (neededAddrs s.links addrs) outs, rfl, fun l' hl' => ?_⟩
+    obtain ⟨id, a, ha, -, rfl⟩ := mem_createConnections hl'
+    exact ⟨rfl, rfl, rfl, fun l hl he => ((mem_neededAddrs_iff s.links addrs a).1 ha).2 l hl he.symm⟩
 
-/-- **C04 at a reload**: a reload makes no link eligible.  A link of the post-state that is connected or in a
-registered phase was a link of the pre-state with the very same record; a new link is `Registering` and not
-connected, so neither the selectors nor the pre-registration path's reuse branch may pick it for stream data
-before its own REG3. -/
+-- non-vacuity of `C01_reload_accounting`: link 2 holds a queued datagram and is removed with it (two datagrams
+-- queued before, one after, nothing on any wire, nothing relayed); link 1 keeps its datagram
+example :
+    exS.links.map (fun l => (l.core.connId, l.queue.map (·.2.1))) = [(1, [some 41]), (2, [some 41]), (3, [])] ∧
+    (step exS exReload).1.links.map (fun l => (l.core.connId, l.queue.map (·.2.1))) =
+      [(1, [some 41]), (3, []), (7, []), (8, [])] ∧
+    (step exS exReload).2.wire = [] ∧ (step exS exReload).2.client = [] := by
+  refine ⟨?_, ?_, ?_, ?_⟩ <;> decide
+
+/-- **C04 at a reload**: a reload makes no link eligible FOR THE SELECTORS.  A link of the post-state that is
+connected or in a registered phase was a link of the pre-state with the very same record; a new link is
+`Registering` and not connected, so neither the selectors (which require `schedulable`) nor the pre-registration
+path's REUSE branch (which requires `connected`) may pick it for stream data before its own REG3.
+
+NOT excluded — and the real code does the same by design —: while NO link has ever completed a registration
+(`reg.hasConnected = false`), `select_pre_registration_connection`'s fallback forwards client data on the first
+link that is not timed out, and a registering link inside its start-up grace window (`now < graceDeadline`,
+`STARTUP_GRACE_MS` after its creation) IS such a link — also a link a reload has just added (second example
+below).  Once `hasConnected` is set (it is never cleared) only the selectors route client data, and the statement
+above is the whole story. -/
 theorem C04_reload_no_new_eligible (s : Sys F) (now : Nat) (addrs : List Nat) (outs : List (Option Nat))
     (l' : FLink F) (hl' : l' ∈ (step s (.reload now addrs outs)).1.links)
     (he : l'.core.connected = true ∨ l'.schedulable = true) : l' ∈ s.links := by
   rcases mem_reload hl' with ⟨h1, -⟩ | ⟨id, a, -, -, rfl⟩
   · exact h1
   · rcases he with he | he <;> cases he
+
+-- non-vacuity of `C04_reload_no_new_eligible`: before the reload links 1 and 2 are eligible, after it link 1 is
+-- (the same record) and neither new link is
+example :
+    (exS.links.filter fun l => l.core.connected || l.schedulable).map (·.core.connId) = [1, 2] ∧
+    ((step exS exReload).1.links.filter fun l => l.core.connected || l.schedulable).map (·.core.connId) = [1] ∧
+    (step exS exReload).1.links.map exView =
+      [((1, 1, 1, 1), (25000, true, true)), ((3, 3, 0, 0), (20000, false, false)),
+       ((7, 4, 0, 0), (20000, false, false)), ((8, 6, 0, 0), (20000, false, false))] := by
+  refine ⟨?_, ?_, ?_⟩ <;> decide
+
+-- the pre-establishment case the docstring names (NOT excluded by the theorem, same in the real code): no REG3 has
+-- ever arrived (`hasConnected = false`); the reload at clock 5000 replaces the only link by the registering link 7@2;
+-- the client datagram at clock 5001 — inside its grace window — is queued on it
+example :
+    let s0 : Sys Int := { links := [FLink.newUplink 1 1 0], reg := Reg.Reg.new [] [] }
+    let s1 := (step s0 (.reload 5000 [2] [some 7])).1
+    let s2 := (step s1 (.client 5001 exData)).1
+    s1.reg.hasConnected = false ∧ s1.links.map exView = [((7, 2, 0, 0), (20000, false, false))] ∧
+      s2.links.map exView = [((7, 2, 1, 0), (20000, false, false))] := by
+  decide +kernel
 
 /-- The relay log of a run, read off the STATES of the run: an uplink datagram is relayed iff a client is known
 and its conn id is the id of a link PRESENT at that moment. -/
@@ -438,8 +789,12 @@ def relayLogS : Sys F → List Ev → List Sys.Bytes
   | s, e :: evs => relayLogS (step s e).1 evs
 
 /-- **C09 over runs with reloads**: the client-side log of ANY run is exactly the relayable uplink datagrams whose
-conn id names a link present when they arrive, in order, byte for byte (an SRT ACK twice); a reload relays nothing
-and a datagram for a removed conn id is dropped by the conn-id lookup.  No distinctness hypothesis. -/
+conn id names a link present when they arrive, in order, byte for byte (an SRT ACK twice); a reload relays nothing.
+No distinctness hypothesis is needed for THIS statement, because it only speaks about the conn ids present in the
+states of the run.  It does NOT by itself say that a datagram for the conn id of a REMOVED link is dropped: with
+two links carrying one conn id (excluded by `Inv`) or a re-drawn id (excluded by `FreshOuts`) the id is still
+present after the removal (links `5@1, 5@2`, reload keeps address 1: id 5 is still present).  That reading is the
+corollary `C09_removed_id_dropped`, under `Inv` and `FreshOuts`. -/
 theorem C09_relay_run_reload (s : Sys F) (evs : List Ev) : clientLog (run s evs).2 = relayLogS s evs := by
   induction evs generalizing s with
   | nil => rfl
@@ -449,5 +804,47 @@ theorem C09_relay_run_reload (s : Sys F) (evs : List Ev) : clientLog (run s evs)
     simp only [run, clientLog, List.flatMap_cons] at this ⊢
     rw [this, h1]
     cases e <;> simp [relayLogS]
+
+/-- **A datagram for a removed conn id is dropped.**  With distinct conn ids (`Inv`) and newly drawn ids
+(`FreshOuts`): after a reload that removes the link `l`, no link carries `l`'s conn id, and an uplink datagram
+carrying that conn id — whatever its bytes, at any clock — relays nothing, puts nothing on any wire and changes
+NOTHING (the state after the event is the state before it).  It stays so until a later reload draws the id again
+(no other event changes the set of conn ids: `step_ids`). -/
+theorem C09_removed_id_dropped (s : Sys F) (hinv : Inv s) (now : Nat) (addrs : List Nat) (outs : List (Option Nat))
+    (hf : FreshOuts s.links outs) (l : FLink F) (hl : l ∈ s.links) (hr : addrs.contains l.addr = false)
+    (now' : Nat) (data : Sys.Bytes) :
+    l.core.connId ∉ ids (step s (.reload now addrs outs)).1.links ∧
+    step (step s (.reload now addrs outs)).1 (.uplink now' l.core.connId data) =
+      ((step s (.reload now addrs outs)).1, {}) := by
+  have hrem := reload_removed s now addrs outs hinv.nodup hf.2 l hl hr
+  have hnot : l.core.connId ∉ ids (step s (.reload now addrs outs)).1.links := by
+    intro h
+    obtain ⟨l', hl', e⟩ := List.mem_map.1 h
+    exact hrem l' hl' e
+  refine ⟨hnot, ?_⟩
+  show handleUplinkPacket _ _ _ _ = _
+  apply Uplink.unknown_link
+  rw [findIdx?_none_iff_not_known]
+  simpa using hnot
+
+-- non-vacuity of `C09_relay_run_reload` / `C09_removed_id_dropped`: a run with the reload, then the same relayable
+-- datagram for the removed conn id 2 (dropped: nothing relayed, the links unchanged) and for the retained link 1
+-- (relayed); before the reload the datagram for conn id 2 IS relayed; hypotheses `Inv exS`, `FreshOuts` hold
+example :
+    clientLog (run exS [exReload, .uplink 10 2 exData, .uplink 11 1 exData]).2 = [exData] ∧
+    relayLogS exS [exReload, .uplink 10 2 exData, .uplink 11 1 exData] = [exData] ∧
+    clientLog (run exS [.uplink 10 2 exData]).2 = [exData] ∧
+    (step (step exS exReload).1 (.uplink 10 2 exData)).1.links.map exView = (step exS exReload).1.links.map exView ∧
+    (step (step exS exReload).1 (.uplink 10 2 exData)).2.wire = [] ∧
+    Inv exS ∧ FreshOuts exS.links [some 7, none, some 8] :=
+  ⟨by decide +kernel, by decide +kernel, by decide +kernel, by decide +kernel, by decide +kernel, exS_inv, by decide⟩
+
+-- why `C09_removed_id_dropped` needs `Inv`: two links with ONE conn id; the reload removes `5@2`, conn id 5 is still
+-- present and a datagram carrying it is still relayed
+example :
+    let s : Sys Int := { links := [exBusy 5 1, exBusy 5 2], reg := Reg.Reg.new [] [], clientKnown := true }
+    ids (step s (.reload 9 [1] [])).1.links = [5] ∧
+      clientLog (run s [.reload 9 [1] [], .uplink 10 5 exData]).2 = [exData] := by
+  decide +kernel
 
 end Srtla.Props.SysReload
